@@ -156,16 +156,17 @@ pub fn settle_violations(
     let mut reported = 0usize;
     for ((decl, sig), vs) in &groups {
         let first = vs[0];
+        let occurrences = stats.violation_counts.get(&(decl.clone(), sig.clone())).copied().unwrap_or(vs.len() as u64);
         if let Some(k) = known.matches(cfg.property, first) {
             println!(
                 "KNOWN-FINDING: property={} decl={} signature={} occurrences={} {}",
                 cfg.property,
                 decl,
                 sig,
-                vs.len(),
+                occurrences,
                 k.what
             );
-            known_hits.insert(format!("{decl}/{sig}"), vs.len() as u64);
+            known_hits.insert(format!("{decl}/{sig}"), occurrences);
             continue;
         }
         new_violations += 1;
@@ -180,7 +181,7 @@ pub fn settle_violations(
                 decl,
                 m.invariant,
                 sig,
-                vs.len(),
+                occurrences,
                 m.detail.replace('\n', " ").chars().take(400).collect::<String>()
             );
         }
